@@ -806,6 +806,39 @@ def c14_pending_exhaustive():
     return hs
 
 
+def c14_threaded_interrupt_histories(rng, count):
+    """interrupt() from a REAL second thread while run() really blocks in epoll_wait with sockets registered: idle socket-pair
+    clients (some suspended, some with a backlog that the kernel would accept — write interest!) are excluded; only sockets
+    that are registered but NOT ready: idle clients, listeners without waiting connection, and timers (virtual time stands
+    still, so none becomes due).  run() must return, without any callback, every time."""
+    hs = []
+    for _ in range(count):
+        h = []
+        nid = 1
+        for _ in range(rng.randint(1, 6)):
+            h.append(f"mkpair {nid}")
+            if rng.random() < 0.3:
+                h.append(f"act sus:{nid}")
+            nid += 1
+        for _ in range(rng.randint(0, 2)):
+            h.append(f"mklisten {nid}")
+            nid += 1
+        for _ in range(rng.randint(0, 3)):
+            h.append(f"act mk:{nid}:{rng.randint(1, 3)}")
+            nid += 1
+        for _ in range(rng.randint(1, 3)):
+            r = rng.random()
+            if r < 0.25:
+                h.append("act intr")            # already pending when the thread starts
+            h.append(f"runmt {rng.choice([0, 0, 100, 1000, 3000])}")
+            if rng.random() < 0.4:
+                h.append(f"act rmc:{rng.randint(1, 3)}")
+            if rng.random() < 0.3:
+                h.append("run all - -")
+        hs.append(h)
+    return hs
+
+
 def c14_closing_wave_histories(rng):
     """containers inside Server under load: 9 or 12 simultaneously live socket-pair clients (more than the 8 buckets of
     _closingClients, more than one PoolList block) whose peers closed; ALL fail a read (or an error write) within one loop
@@ -908,15 +941,17 @@ def check_c14(ctx):
         ex = c14_equal_due_exhaustive()
         ex2 = c14_pending_exhaustive()
         ex3 = c14_closing_wave_histories(random.Random(12345))
+        mt = c14_threaded_interrupt_histories(rng, 150 if quick else 1500)
         nt, nm = (6000, 9000) if quick else (60000, 90000)
         if not proof_ok:
             nt, nm = nt * 3, nm * 3
         tim = [c14_timer_history(rng, equal_due=(k % 2 == 0)) for k in range(nt)]
         mix = [c14_mixed_history(rng, with_net=(k % 3 != 0)) for k in range(nm)]
-        hs = hs + ex + ex2 + ex3 + tim + mix
+        hs = hs + ex + ex2 + ex3 + mt + tim + mix
         ctx.cov["rule"] = (f"corpus ({ncorpus}) + exhaustive equal-due scope: 1..8 timers created in one virtual millisecond with equal interval, "
                            f"remove(timer r) for every r before run / between runs / from the callback of every timer q ({len(ex)} histories) + "
                            f"closing-wave family: 9/12 live clients all failing a read/write in one loop iteration in 5 orders x 10-11 immediate-remove patterns, remove inside onClosed, re-creation in freed slots and a second wave ({len(ex3)} histories; monitor: exactly one onClosed per failed-and-not-removed client, none for removed ones) + "
+                           f"{len(mt)} programs with interrupt() from a real second thread while run() blocks in the real epoll_wait with idle clients, listeners and timers registered + "
                            f"exhaustive pending-event scope: 2 clients + listener + establisher reported by one epoll_wait in all 24 orders, the first callback removes any of the four ({len(ex2)} histories) + "
                            f"{len(tim)} random timer programs (1..8 timers, intervals 1..3, create/remove/interrupt inside callbacks, interrupt before/during run) + "
                            f"{len(mix)} random mixed programs (1..4 socket-pair clients, 0..2 loop-back listeners with dialling peers, 0..2 establishers, 0..3 timers; "
